@@ -141,7 +141,7 @@ PROPS["C07"]["families"] = [fam("fam_round", 40, 1500), fam("fam_round_exh8", 12
 PROPS["C08"]["families"] = [GENERAL_S, fam("fam_access", 60, 1500), fam("fam_wo_twins", 48, 1200)]
 PROPS["C09"]["families"] = [GENERAL_S, fam("fam_flags", 40, 1000), fam("fam_implicit", 24, 400)]
 PROPS["C10"]["families"] = [GENERAL_S, fam("fam_codes", 40, 1000)]
-PROPS["C11"]["families"] = [GENERAL_S, fam("fam_sched", 48, 1200)]
+PROPS["C11"]["families"] = [GENERAL_S, fam("fam_sched", 48, 1200), fam("fam_hold", 24, 400)]
 PROPS["C12"]["families"] = [GENERAL_S, fam("fam_sched", 32, 800), fam("fam_conf", 48, 1200)]
 PROPS["C13"]["families"] = [GENERAL_S, fam("fam_ring", 24, 400), fam("fam_quiesce", 10, 200)]
 PROPS["C14"]["families"] = [GENERAL_S, fam("fam_hold", 40, 800)]
